@@ -60,3 +60,13 @@ claim("C13", "exactly-when monitor: valid twin programs must compile, the same p
       "Seeded valid programs and their single-plant variants (all built-in arities, $left/$right misuse, bad let values, join kinds, row counts, zero/two queries) are compiled by the real compiler in monitored workers; acceptance of a plant, rejection of a twin, or SQL together with an error (or neither) refutes the property. The either/or contract is also asserted on hostile byte strings, soups, pathological nestings and mutated programs with parameter maps.",
       "Trusts the generator's notion of 'breaks none of the documented rules' (gen/valid.go); render property values and lets after the query are not compiled and carry no plants.",
       "DESIGN.md section 5, C13")
+
+claim("C02", "reference-model monitor: the real compiler's SQL executed by an independent sequential table engine on small database instances vs a left-to-right reference interpreter returning ordered partitions; exhaustive operator sequences + seeded long ones; split decisions observed through a build-tagged hook",
+      "Every sequence of the ten join-free operators up to length 3/4 (several seeded argument choices each) and seeded sequences up to length 10 are compiled by the real compiler; the emitted SQL is run on 3/6 instances with duplicates, ties, NULLs and empty tables and must yield the interpreter's columns and rows, in an order the sorts determine. The evidence lists the (previous operator, sorted?, limited?, next operator, attach/new) split states the compiler really went through.",
+      "Trusts sqlmini (parser, evaluator, table engine: order-preserving subqueries, stable ORDER BY), pqlref.Interp and package val; excluded program shapes are listed in DESIGN.md section 7; ill-typed instances are not judged.",
+      "DESIGN.md section 5, C02")
+
+claim("C03", "reference-model monitor (same engine pair as C02): join kinds x condition forms x prefixes x right-hand pipelines (nested joins, several joins) executed on instances with duplicate/unmatched left rows and NULL keys vs the reference join",
+      "Seeded join pipelines covering all kinds, condition forms, left prefixes, right-hand pipelines with nested joins and join sequences are compiled by the real compiler and executed by the independent engine; the result must be the reference join of the interpreter's left result with the independently interpreted right pipeline, followed by the suffix operators.",
+      "As C02; columns present on both sides are never referenced after the join.",
+      "DESIGN.md section 5, C03")
